@@ -321,7 +321,7 @@ def dispatch_facts(P, rep):
 
 
 # ------------------------------------------------------------------------------------------------ product exploration
-MALFORMED = {"IfX": ("If", ".if @0 == 1"), "EndifX": ("Endif", ".endif ]")}
+MALFORMED = {"IfX": ("If", ".if @0 == 1"), "EndifX": ("Endif", ".endif ]"), "ElseX": ("Else", ".else )"), "ElIfX": ("ElIf", ".elif (3")}
 
 
 def malformed_classes(P):
@@ -374,7 +374,7 @@ def explore_product(scan, parse, dispatch, depth=DEPTH, malformed=None):
             top = stack[-1]
             if not top[2]:
                 letters += [("ElIf", True), ("ElIf", False), ("Else", None)]
-            letters += [("Endif", None), ("EndifX", None)]
+            letters += [("Endif", None), ("EndifX", None), ("ElseX", None), ("ElIfX", None)]
         for letter, c in letters:
             ntrans += 1
             # ---- reference
@@ -412,6 +412,12 @@ def explore_product(scan, parse, dispatch, depth=DEPTH, malformed=None):
                 ref_emit = pa
                 rstack = stack[:-1]
                 ractive = pa
+            elif letter in ("ElseX", "ElIfX"):
+                # a malformed .else / .elif: at fault when its chain belongs to assembled text (whatever arm was taken), else nothing
+                pa, taken, se = stack[-1]
+                ref_emit = pa
+                rstack = stack
+                ractive = False
             # a condition the reference does not evaluate is "don't care" for it, but both outcomes are tried on the implementation
             # ---- implementation (extracted tables)
             impl2 = impl
@@ -419,7 +425,7 @@ def explore_product(scan, parse, dispatch, depth=DEPTH, malformed=None):
             impl_eval = False
             problem = None
             cls = {"P": "<plain>", "X": "<unparsable>"}.get(letter, letter)
-            wf = letter not in ("X", "IfX", "EndifX")
+            wf = letter not in ("X",) + tuple(MALFORMED)
             if letter in MALFORMED:
                 cls = (malformed or {}).get(letter, "<unparsable>")
             steps = 0
@@ -433,7 +439,7 @@ def explore_product(scan, parse, dispatch, depth=DEPTH, malformed=None):
                 if impl2[0] == 'asm':
                     if letter == "P":
                         impl_emit = True
-                    elif letter in ("X", "IfX", "EndifX"):
+                    elif letter in ("X",) + tuple(MALFORMED):
                         impl_emit = True        # unparsable text in an assembled region is an error = it has an effect
                     else:
                         acts_d = dispatch.get((letter, flag)) or dispatch.get((letter, None))
@@ -475,12 +481,13 @@ def explore_product(scan, parse, dispatch, depth=DEPTH, malformed=None):
             if problem:
                 violations.append(("table", problem, word))
                 continue
-            if letter in ("P", "X", "IfX", "EndifX") and impl_emit != ref_emit:
+            if letter in ("P", "X") + tuple(MALFORMED) and impl_emit != ref_emit:
                 violations.append(("select", "line %d (%s) is %s by the implementation but %s by the reference" % (
-                    len(word), {"P": "plain", "X": "unparsable text", "IfX": "an .if with malformed operands", "EndifX": "a malformed .endif"}[letter],
+                    len(word), {"P": "plain", "X": "unparsable text", "IfX": "an .if with malformed operands", "EndifX": "a malformed .endif",
+                                "ElseX": "a malformed .else", "ElIfX": "a malformed .elif"}[letter],
                     "assembled" if impl_emit else "skipped", "selected" if ref_emit else "not selected"), word))
                 continue
-            if letter in ("IfX", "EndifX") and ref_emit:
+            if letter in MALFORMED and ref_emit:
                 continue        # the build has failed on this line: nothing follows
             if impl_eval and not ref_eval:
                 violations.append(("eval", "the condition on line %d is evaluated although its arm cannot be selected (an undefined symbol there would fail the build)" % len(word), word))
@@ -495,7 +502,7 @@ def explore_product(scan, parse, dispatch, depth=DEPTH, malformed=None):
 
 def fmt(letter, c):
     if c is None:
-        return {"P": "P", "X": "X", "Else": "else", "Endif": "endif", "IfX": "if?", "EndifX": "endif?"}.get(letter, letter.lower())
+        return {"P": "P", "X": "X", "Else": "else", "Endif": "endif", "IfX": "if?", "EndifX": "endif?", "ElseX": "else?", "ElIfX": "elif?"}.get(letter, letter.lower())
     return "%s%s" % (letter.lower(), "+" if c else "-")
 
 
@@ -630,6 +637,6 @@ def run(tier):
         rep.ob("C08.sel|%s" % ";".join(word), False, "skeleton `%s`: %s" % (" / ".join(word), text), detail={"skeleton": list(word)})
     rep.ob("C08.product", not violations, "implementation and reference agree on every reachable product state (%d states, %d transitions, depth <= %d)" % (nstates, ntrans, DEPTH) if not violations else
            "%d disagreeing transitions (shortest skeletons reported above)" % len(violations), nontrivial=True,
-           sample={"states": nstates, "transitions": ntrans, "alphabet": ["P", "X", "if±", "ifdef±", "ifndef±", "elif±", "else", "endif", "if?", "endif?"]})
+           sample={"states": nstates, "transitions": ntrans, "alphabet": ["P", "X", "if±", "ifdef±", "ifndef±", "elif±", "else", "endif", "if?", "endif?", "else?", "elif?"]})
     rep.samples.append({"example skeleton": ["if-", "P", "elif+", "P", "else", "P", "endif"], "meaning": "one product run; all runs up to the depth bound are covered by BFS"})
     return rep
